@@ -40,6 +40,7 @@ type Ctx struct {
 	DriverPath          string
 	CorpusDir           string
 	Replay              string
+	Only                string // run only this sub-check (debugging)
 
 	mu       sync.Mutex
 	res      Result
